@@ -123,6 +123,9 @@ func (info FeatureListInfo) encode() []byte {
 	totalSize := 2 + 6*len(info)
 	var largestOffset int
 	for i, f := range info {
+		if len(f.Lookups) > 0xFFFF {
+			panic("featureListInfo too large")
+		}
 		largestOffset = totalSize
 		offs[i] = uint16(totalSize)
 		totalSize += 4 + 2*len(f.Lookups)
